@@ -229,7 +229,7 @@ example :
 /-! ### the replay window -/
 
 /-- **nonce_covers_window.** If the nonce TTL covers maximum validity + twice the verifier's skew, then after a
-    presentation has been accepted at `t₁`, EVERY later vp_token-bearer request (after any history of other
+    (JSON-LD) presentation has been accepted at `t₁`, EVERY later vp_token-bearer request (after any history of other
     operations) that carries a presentation with the same nonce while the first presentation is still inside the
     verifier's acceptance window is refused - so no presentation can be used twice. -/
 theorem nonce_covers_window (cfg : Cfg) (sha : String → String)
@@ -237,7 +237,7 @@ theorem nonce_covers_window (cfg : Cfg) (sha : String → String)
     (hchk : cfg.emptyVpChecked = true) (httl : cfg.nonceTtl ≠ 0)
     (w w₁ : World) (t₁ : Nat) (r₁ : S2SReq) (resp₁ : TokenResponse) (hwf₁ : ∀ vp ∈ r₁.vps, vp.signer ≠ some "")
     (h₁ : issueS2S cfg w t₁ r₁ = (w₁, .ok resp₁))
-    (vp : VP) (hvp : vp ∈ r₁.vps)
+    (vp : VP) (hvp : vp ∈ r₁.vps) (hld : vp.ld = true)
     (between : List (Nat × Op)) (hlater : ∀ x ∈ between, t₁ ≤ x.1)
     (t₂ : Nat) (r₂ : S2SReq) (hwf₂ : ∀ vp ∈ r₂.vps, vp.signer ≠ some "")
     (vp' : VP) (hvp' : vp' ∈ r₂.vps) (hsame : vp'.nonce = vp.nonce)
@@ -249,8 +249,8 @@ theorem nonce_covers_window (cfg : Cfg) (sha : String → String)
   have hv := hc.verified vp hvp
   have hc1 : c ≤ t₁ + cfg.verifierSkew := by
     unfold vpVerifies at hv
-    rw [hcr, hex] at hv
-    simp only [Bool.and_eq_true] at hv
+    rw [hcr, hex, hld] at hv
+    simp only [Bool.and_eq_true, if_true] at hv
     have := hv.2
     unfold ldValidAt at this
     split at this
